@@ -144,31 +144,4 @@ def exactLength (m : Morph) (i : Nat) : Option Rat :=
   | some s, some p => ratSqrt? (sqDist s.dist p)
   | _, _ => none
 
-/-! ### `get_segment_location_info` with the proposed repair `fixes/C13-location-info-stops-at-root.patch` -/
-
-/-- the repaired walk (`while preds and len(successors(preds[0])) == 1`): stops at a segment without predecessor -/
-def walkBranchFixed (g : Graph) : Nat → Nat → Option Nat
-  | 0, _ => none
-  | k + 1, cur =>
-    match preds g cur with
-    | [] => some cur                                   -- the morphology root: measured from here
-    | par :: _ => if (succs g par).length = 1 then walkBranchFixed g k par else some cur
-
-def segmentLocationInfoFixedG (m : Morph) (len : Nat → Rat) (g : Graph) (fuel : Nat) (i : Nat) : Option LocInfo :=
-  match morphologyRootG m g with
-  | none => none
-  | some root =>
-    match distanceG g fuel root i with
-    | none => none
-    | some dRoot =>
-      match walkBranchFixed g fuel i with
-      | none => none
-      | some cur =>
-        match distanceG g fuel cur i with
-        | none => none
-        | some dB => some ⟨len i, dRoot, dB⟩
-
-def segmentLocationInfoFixed (m : Morph) (len : Nat → Rat) (fuel : Nat) (i : Nat) : Option LocInfo :=
-  segmentLocationInfoFixedG m len (getGraph m len) fuel i
-
 end NmlVerif.Morph
